@@ -31,7 +31,9 @@ def units():
                    "EVERY delta_depth 1..=29 and every parent cell with depth + delta_depth <= 29 (no bound): each corner helper returns a descendant of the parent (result >> 2*dd == parent) whose "
                    "sub-cell index is: south 0; north 4^dd - 1; east = all even bits below 2*dd and no odd bit (i maximal, j = 0); west = all odd bits and no even bit; the masks x/y/xy_mask(d), 1 <= d <= 32, "
                    "are exactly the even / odd / all bits below 2*d; no shift or subtraction overflows",
-                   engine="verus", level="P", timeout=600, extra=dict(spec="verus_edge", rlimit=60), bound="none (all delta_depth, all parent cells)"))
+                   engine="verus", level="P", timeout=600, extra=dict(spec="verus_edge", rlimit=60, twin="edge_corners_all_dd"), bound="none (all delta_depth, all parent cells)"))
+    us.append(Unit("edge_corners_all_dd", P + "edge_corners_all_dd", VF + ["internal_corner"], "EVERY delta_depth 1..=29 and every parent cell, symbolic, loop-free (complete proof, replayable): the four corners (through the dispatcher internal_corner) are descendants with sub-cell index 0 / even bits / odd bits / 4^delta-1; masks == even / odd / all bits",
+                   level="P", timeout=900, bound="none (delta_depth and parent cell symbolic)"))
     us.append(Unit("edge_corners_verus_canary", "contracts/verus_edge.py", VF, "vacuity guard: a false claim under the same precondition must fail",
                    kind="canary", engine="verus", timeout=600, extra=dict(spec="verus_edge", rlimit=60)))
     return us
